@@ -7,12 +7,14 @@ XML (the xml namespace), XSI (the schema-instance namespace).
 
 A declaration (one <xs:attribute> inside the complex type or inside a referenced
 attribute group) is a dict
-    {'local': 'p', 'form': 'unqualified'|'qualified', 'ref': None | global name,
+    {'local': 'p', 'form': None (attribute absent)|'unqualified'|'qualified', 'ref': None | global name,
      'use': 'optional'|'required'|'prohibited', 'con': None | ('default', lex) | ('fixed', lex),
      'type': 'string'|'int'|'boolean'|'lang' (ignored for refs)}
 The wildcard is None or (constraint, processContents) with the constraint in the
 representation of mc/ref/wild.py, whose ns_allowed() gives the set semantics of the
 namespace constraint.  Global attribute declarations are a dict name -> (type, con).
+afd is the attributeFormDefault of the schema document: None (absent), 'qualified' or
+'unqualified'; a local declaration is qualified iff its form, else afd, is 'qualified'.
 """
 import re
 
@@ -46,23 +48,24 @@ def ns_token(name):
     return name.split(':')[0] if ':' in name else 'L'
 
 
-def effective_name(d):
+def effective_name(d, afd=None):
     if d['ref']:
         return d['ref']
-    return 'T:' + d['local'] if d['form'] == 'qualified' else d['local']
+    form = d['form'] or afd or 'unqualified'
+    return 'T:' + d['local'] if form == 'qualified' else d['local']
 
 
 class Model:
     """The attribute uses, prohibitions and wildcard of one complex type."""
 
-    def __init__(self, decls, wildcard, globals_):
+    def __init__(self, decls, wildcard, globals_, afd=None):
         self.uses = {}            # name -> (use, type, con)   use in optional|required
         self.prohibited = set()
         self.wildcard = wildcard
         self.globals = dict(globals_)
         self.judgements = 0       # individual attribute judgements made (evidence: transitions)
         for d in decls:
-            name = effective_name(d)
+            name = effective_name(d, afd)
             if name in self.uses or name in self.prohibited:
                 raise ValueError('duplicate declaration of %s' % name)
             if d['use'] == 'prohibited':
